@@ -153,7 +153,7 @@ def adversarial(g, depth):
     na = _fresh_name(g.prog, mods[0], base)
     a = add_class(g, na, mods[0], flav(), [[fa, t1], [fb, ["coll", "list", t1, {"sp": "builtin"}]]])
     mb = mods[-1]
-    nb = na if mb != mods[0] else _fresh_name(g.prog, mb, base)
+    nb = _fresh_name(g.prog, mb, na if mb != mods[0] else base)
     b = add_class(g, nb, mb, flav(), [[fa, t2], [fb, ["coll", "list", t2, {"sp": "builtin"}]]])
     # --- nested class with the __name__ of a top-level class of the same module, other field types
     t3 = r.choice([["str"], ["int"], ["fraction"], ["path"]])
@@ -175,8 +175,12 @@ def adversarial(g, depth):
                   ["pair", ["tuple", [["cls", a], ["cls", b], m], {"sp": "builtin"}]]]
     r.shuffle(hub_fields)
     hub_fields = hub_fields[: r.randint(5, len(hub_fields))]
+    if r.random() < 0.08:
+        # the known finding: two unions that are == but list their members in different orders share one context key
+        hub_fields += [["u1", ["union", [["int"], ["str"]], {"sp": "typing"}]], ["u2", ["union", [["str"], ["int"]], {"sp": "typing"}]]]
     hub_kind = r.choice(["dataclass", "dataclass", "typeddict", "plain", "namedtuple"])
-    hub = add_class(g, _fresh_name(g.prog, r.choice(mods), "Hub"), r.choice(mods), hub_kind, hub_fields)
+    hub_mod = r.choice(mods)
+    hub = add_class(g, _fresh_name(g.prog, hub_mod, "Hub"), hub_mod, hub_kind, hub_fields)
     if r.random() < 0.5 and hub_kind != "namedtuple":
         hc = g.prog["classes"][hub]
         hc["fields"].append(["again", ["union", [["cls", hub], ["none"]], {"sp": "optional"}]])
@@ -331,6 +335,11 @@ def _brief(o, P):
     return {"err": o[1], "msg": o[2]}
 
 
+def _marshal(tl, v, a):
+    """marshal(v, t=None) means "no annotation given"; the member annotation None is spelled NoneType."""
+    return tl.marshal(v, t=type(None) if a is None else a)
+
+
 class Oracle:
     """composite(x) == rebuild(member_i(x_i)), the member routines obtained independently (`typelib.unmarshal(Member_i, …)`
     builds the routine of Member_i as a root of its own), with exception parity; applied recursively."""
@@ -404,19 +413,19 @@ class Oracle:
                 return
             xs = list(v)
             members = [(f"{path}[{i}]", k[2], xi) for i, xi in enumerate(xs)]
-            expect = lambda: [tl.marshal(xi, t=k[2]) for xi in xs]
+            expect = lambda: [_marshal(tl, xi, k[2]) for xi in xs]
         elif k[0] == "tuple":
             if type(v) not in (list, tuple):
                 return
             xs = list(v)
             members = [(f"{path}[{i}]", e, xi) for i, (e, xi) in enumerate(zip(k[1], xs))]
-            expect = lambda: [tl.marshal(xi, t=e) for e, xi in zip(k[1], xs)]
+            expect = lambda: [_marshal(tl, xi, e) for e, xi in zip(k[1], xs)]
         elif k[0] == "dict":
             if type(v) is not dict:
                 return
             items = list(v.items())
             members = [(f"{path}[{a_!r}]", k[2], b_) for a_, b_ in items]
-            expect = lambda: {tl.marshal(a_, t=k[1]): tl.marshal(b_, t=k[2]) for a_, b_ in items}
+            expect = lambda: {_marshal(tl, a_, k[1]): _marshal(tl, b_, k[2]) for a_, b_ in items}
         else:
             cls, hints = k[1], k[2]
             if type(v) is dict and issubclass(cls, dict):
@@ -429,8 +438,8 @@ class Oracle:
             else:
                 return
             members = [(f"{path}.{f}", hints[f], b_) for f, b_ in items]
-            expect = lambda: {f: tl.marshal(b_, t=hints[f]) for f, b_ in items}
-        self._judge("marshal", a, v, path, _outcome(lambda: tl.marshal(v, t=a)), _outcome(expect))
+            expect = lambda: {f: _marshal(tl, b_, hints[f]) for f, b_ in items}
+        self._judge("marshal", a, v, path, _outcome(lambda: _marshal(tl, v, a)), _outcome(expect))
         for p, ma, mx in members[:6]:
             self.mar(ma, mx, p, depth + 1)
 
@@ -713,7 +722,7 @@ def explore(ctx):
     res = Result()
     res.rule = RULE
     depth = 3 if ctx.tier == "quick" else 4
-    n = ctx.n(22, 400)
+    n = ctx.n(90, 1500)
     core.import_typelib()
     jobs = make_jobs(ctx, n, depth)
     real = iso.map_isolated(child, jobs, timeout=120.0)
